@@ -240,6 +240,21 @@ func c06Case(c *core.Case) {
 	}
 	vars1[m] = markAt(orig, path, cty.NilVal)
 	vars2[m] = markAt(orig, path, other)
+	if len(p.roots) > 1 && c.Tier == "pending" {
+		// (not part of the registered tiers) another variable the program reads
+		// is not known yet, in both runs. Exploring this found two defects that
+		// were repaired (marks of object keys when a key is unknown; marks of
+		// the operand of a unary operator) and further paths on which hcl
+		// returns a bare unknown when an operand fails or a collection is not
+		// known (short-circuit operators with a failing operand, for
+		// expressions over an unknown collection); the directed list pins the
+		// pending-operand behaviours that are decided, see DESIGN.md §11.
+		q := gen.Pick(r, p.roots)
+		if v, ok := sc.Vars[q]; ok && q != m {
+			vars1[q], vars2[q] = cty.UnknownVal(v.Type()), cty.UnknownVal(v.Type())
+			c.Count("scope:with-a-pending-variable")
+		}
+	}
 	c.SetInput(fmt.Sprintf("%s\nMARKED: %s at %v\nRUN1 %s = %s\nRUN2 %s = %s\nSCOPE: %s", p.src, m, path, m, valStr(vars1[m]), m, valStr(vars2[m]), scopeStr(sc)))
 	msg, differed, bothOK := c06Judge(p, vars1, vars2)
 	c.Evals(2)
@@ -281,6 +296,24 @@ func c06Case(c *core.Case) {
 				}
 			}
 		}
+		if small.Kind != gen.KCond {
+			// a conditional further down that launders on its own (the JSON
+			// wrapping of sub-expressions can hide it from the shrinker)
+			var found *gen.Node
+			small.Walk(func(n *gen.Node) {
+				if found != nil || n.Kind != gen.KCond || n == small {
+					return
+				}
+				if sp, _ := c06Compile(c, n, false); sp != nil {
+					if m2, _, _ := c06Judge(sp, vars1, vars2); m2 != "" {
+						found = n
+					}
+				}
+			})
+			if found != nil {
+				small = found
+			}
+		}
 		if small.Kind == gen.KCond {
 			// The selected arm alone gives the same value in both runs: the
 			// difference comes only from unifying its type with the unselected
@@ -299,6 +332,22 @@ func c06Case(c *core.Case) {
 						if !d1.HasErrors() && !d2.HasErrors() && unmarked(s1).RawEquals(unmarked(s2)) {
 							c.Violation("laundered/conditional-type-from-unselected-arm", fmt.Sprintf("program %s (minimal sub-expression: %s)\n%s", trunc(p.src, 400), gen.RenderExpr(small, &gen.Layout{}), msg), nil)
 							return
+						}
+					}
+				}
+				// The predicate is not known in either run, so neither arm is selected;
+				// an arm that fails in only one of the runs makes that run's result a
+				// bare cty.DynamicVal (same root cause: the result depends on an arm
+				// that is not the selected one).
+				if !e1.HasErrors() && !e2.HasErrors() && !p1.IsKnown() && !p2.IsKnown() {
+					for _, arm := range small.Kids[1:3] {
+						if ap, _ := c06Compile(c, arm, false); ap != nil {
+							_, a1 := ap.eval(ctxWith(vars1))
+							_, a2 := ap.eval(ctxWith(vars2))
+							if a1.HasErrors() != a2.HasErrors() {
+								c.Violation("laundered/conditional-type-from-unselected-arm", fmt.Sprintf("program %s (minimal sub-expression: %s; pending predicate, one arm fails in one run only)\n%s", trunc(p.src, 400), gen.RenderExpr(small, &gen.Layout{}), msg), nil)
+								return
+							}
 						}
 					}
 				}
@@ -365,6 +414,22 @@ var c06Directed = []c06Dir{
 	{Name: "cond-unselected-arm-type", Src: `true ? [] : [k]`, A: cty.StringVal("a"), B: cty.NumberIntVal(1)},
 	{Name: "call-expansion-empty", Src: `tup(k...)`, A: cty.ListVal([]cty.Value{cty.StringVal("a")}), B: cty.ListValEmpty(cty.String)},
 	{Name: "object-for-cond", Src: `{for x in ["a"]: x => x if k}`, A: cty.True, B: cty.False},
+	// an operand that is not yet known beside the marked one: the result is
+	// unknown in one run and decided by the marked operand in the other
+	{Name: "or-pending-left", Src: `pend || k`, A: cty.False, B: cty.True, Vars: map[string]cty.Value{"pend": cty.UnknownVal(cty.Bool)}},
+	{Name: "or-pending-right", Src: `k || pend`, A: cty.False, B: cty.True, Vars: map[string]cty.Value{"pend": cty.UnknownVal(cty.Bool)}},
+	{Name: "and-pending-left", Src: `pend && k`, A: cty.True, B: cty.False, Vars: map[string]cty.Value{"pend": cty.UnknownVal(cty.Bool)}},
+	{Name: "and-pending-right", Src: `k && pend`, A: cty.True, B: cty.False, Vars: map[string]cty.Value{"pend": cty.UnknownVal(cty.Bool)}},
+	{Name: "cond-pending-arms", Src: `k ? pend : "x"`, A: cty.True, B: cty.False, Vars: map[string]cty.Value{"pend": cty.UnknownVal(cty.String)}},
+	{Name: "template-pending", Src: `"${pend}${k}"`, A: cty.StringVal("a"), B: cty.StringVal("b"), Vars: map[string]cty.Value{"pend": cty.UnknownVal(cty.String)}},
+	{Name: "for-pending-filter", Src: `[for x in [pend, "q"]: x if x != k]`, A: cty.StringVal("q"), B: cty.StringVal("z"), Vars: map[string]cty.Value{"pend": cty.UnknownVal(cty.String)}},
+	// a marked key of another type than the collection's key type (it is converted first)
+	{Name: "list-index-marked-string-key", Src: `lst[k]`, A: cty.StringVal("0"), B: cty.StringVal("1"), Vars: map[string]cty.Value{"lst": cty.ListVal([]cty.Value{cty.StringVal("x"), cty.StringVal("y")})}},
+	{Name: "tuple-index-marked-string-key", Src: `tup[k]`, A: cty.StringVal("0"), B: cty.StringVal("1"), Vars: map[string]cty.Value{"tup": cty.TupleVal([]cty.Value{cty.StringVal("x"), cty.True})}},
+	{Name: "map-index-marked-number-key", Src: `mp[k]`, A: cty.NumberIntVal(1), B: cty.NumberIntVal(2), Vars: map[string]cty.Value{"mp": cty.MapVal(map[string]cty.Value{"1": cty.StringVal("x"), "2": cty.StringVal("y")})}},
+	{Name: "map-index-marked-bool-key", Src: `mp[k]`, A: cty.True, B: cty.False, Vars: map[string]cty.Value{"mp": cty.MapVal(map[string]cty.Value{"true": cty.StringVal("x"), "false": cty.StringVal("y")})}},
+	{Name: "index-in-template", Src: `"v=${lst[k]}"`, A: cty.StringVal("0"), B: cty.StringVal("1"), Vars: map[string]cty.Value{"lst": cty.ListVal([]cty.Value{cty.StringVal("x"), cty.StringVal("y")})}},
+	{Name: "splat-index-marked-string-key", Src: `deep[*].tags[k]`, A: cty.StringVal("0"), B: cty.StringVal("1"), Vars: map[string]cty.Value{"deep": cty.ListVal([]cty.Value{cty.ObjectVal(map[string]cty.Value{"tags": cty.ListVal([]cty.Value{cty.StringVal("x"), cty.StringVal("y")})})})}},
 }
 
 func c06DirectedCase(c *core.Case, d c06Dir) {
